@@ -6,6 +6,7 @@
     end to end by tools/props/c03.py.  The model is tied to the code by per-sample trace inclusion (same check). *)
 From Coq Require Import ZArith Bool List.
 From M17 Require Import ConstsDemod ImplDemodCtl SpecDemodCtl LemmasDemodCtl_Base LemmasDemodCtl_WF LemmasDemodCtl_Track.
+From M17 Require Import SpecDSP ConstsTaps LemmasDSP_Taps LemmasEye.
 Import ListNotations.
 Local Open Scope Z_scope.
 
@@ -94,6 +95,30 @@ Definition ex_run_found : list obs :=
   repeat ex_quiet 79 ++ [ex_found] ++ repeat ex_quiet 14 ++ [ex_clk4] ++ repeat ex_quiet4 (1921 - 95).
 
 Definition count_decodes (evs : list (list event)) : nat := length (flat_map decodes evs).
+
+(** 5. eye opening (uses the RRC table theorem of C19): for each transmit x receive tap-table pair of the repository, in exact
+       arithmetic, the matched-filter output at the ideal sampling instant - main cascade tap times the current symbol plus the
+       symbol-spaced side taps times ANY past and future symbols in {-3..3} - deviates from (main tap x symbol) by less than
+       6 % of the main tap: after exact gain normalisation the sample is within 0.06 of the transmitted level. *)
+Theorem c03_eye_open :
+  forall (s : Z) (a : nat -> Z), (forall i, Z.abs (a i) <= 3) ->
+  100 * Z.abs (eye_sample samples_per_symbol (74 + 74) casc_mod_double s a - nth (74 + 74) casc_mod_double 0 * s) < 6 * nth (74 + 74) casc_mod_double 0 /\
+  100 * Z.abs (eye_sample samples_per_symbol (74 + 74) casc_mod_float s a - nth (74 + 74) casc_mod_float 0 * s) < 6 * nth (74 + 74) casc_mod_float 0 /\
+  100 * Z.abs (eye_sample samples_per_symbol (39 + 74) casc_modulator_double s a - nth (39 + 74) casc_modulator_double 0 * s) < 6 * nth (39 + 74) casc_modulator_double 0 /\
+  100 * Z.abs (eye_sample samples_per_symbol (39 + 74) casc_modulator_float s a - nth (39 + 74) casc_modulator_float 0 * s) < 6 * nth (39 + 74) casc_modulator_float 0.
+Proof. exact eye_open_repo. Qed.
+Print Assumptions c03_eye_open.
+
+(** ... hence, for a transmitted level s in {+3,+1,-1,-3}, the normalised sample lies on s's side of every decision boundary
+       (0, +-2) with a margin of 0.94 - the soft demapper (C12) then yields the Gray dibit of s, and by the clean round trip (C01)
+       the frame decodes bit-exact.  (Stated for any cascade satisfying the Nyquist bound; C19 proves it for the four pairs.) *)
+Theorem c03_eye_decision : forall (sps p : nat) (c : list Z), nyquist_holds sps p c ->
+  forall (s : Z) (a : nat -> Z), In s [3; 1; -1; -3] -> (forall i, Z.abs (a i) <= 3) ->
+  let y := eye_sample sps p c s a in let m := nth p c 0 in
+  (s = 3 -> 100 * y > 294 * m) /\ (s = 1 -> 6 * m < 100 * y < 106 * m) /\
+  (s = -1 -> - 106 * m < 100 * y < - 6 * m) /\ (s = -3 -> 100 * y < - 294 * m).
+Proof. exact eye_decision_gen. Qed.
+Print Assumptions c03_eye_decision.
 
 Example c03_hypotheses_satisfiable_coasting :
   boundary ex_boundary = true /\ track_good_run false ex_boundary ex_run_coast /\
